@@ -22,7 +22,17 @@ VPACKS = {
     "pv0": dict(prefix_verified=0), "pv1": dict(prefix_verified=1), "pv2": dict(prefix_verified=2), "pv3": dict(prefix_verified=3),
     "pv1sym": dict(prefix_verified=1, sym=True), "pv2inf": dict(prefix_verified=2, inf=True), "pv2syminf": dict(prefix_verified=2, sym=True, inf=True),
     "pvrev1": dict(prefix_verified_rev=1), "pvrev2": dict(prefix_verified_rev=2), "pv2fac": dict(prefix_verified=2, factory=True),
+    # the expansion of a verified class brings in further verified classes offering a pack (nested verification)
+    "nest13": dict(prefix_verified_nested=(1, 3), no_initial=True), "nest12": dict(prefix_verified_nested=(1, 2), no_initial=True),
+    "nest23": dict(prefix_verified_nested=(2, 3), no_initial=True),
+    # the original specification already contains a reverse rule (the redundant start class is only the child of a one-way
+    # rule) and the verified class needs reverse rules to be expanded
+    "redparrev1": dict(redpar=True, prefix_verified_rev=1), "redparrev2": dict(redpar=True, prefix_verified_rev=2),
+    "redparrev2b": dict(redpar=True, prefix_verified_rev=2, start_prefix="b"), "redparrev1ab": dict(redpar=True, prefix_verified_rev=1, start_prefix="ab"),
 }
+
+
+PREFIXED = {(("aab",), "redparrev2b"), (("aa",), "redparrev1ab"), (("aab",), "redparrev1ab")}
 
 
 def rule_ids(spec):
@@ -47,9 +57,12 @@ def job(cfg):
     from comb_spec_searcher.strategies.rule import VerificationRule
 
     pats, alph, st, vp, fl, sch = cfg
-    redundant = list(pats) + ([pats[0] + pats[0][-1]] if VPACKS[vp].get("inf") else [])
-    start = W.WC("", redundant, alph, False, sc.STATS[st])
-    pack = W.make_pack(**VPACKS[vp])
+    redundant = list(pats) + ([pats[0] + pats[0][-1]] if VPACKS[vp].get("inf") or VPACKS[vp].get("redpar") else [])
+    kw = dict(VPACKS[vp])
+    start = W.WC(kw.pop("start_prefix", ""), redundant, alph, False, sc.STATS[st])
+    if start.is_empty():
+        return None
+    pack = W.make_pack(**kw)
     s = Session(start, pack, flavour=fl, schedule=sc.SCHEDULES[sch], record=())
     tid = "%s|%s|%s|%s|%s|%s" % (",".join(pats), alph, st, vp, fl, sch)
     try:
@@ -61,11 +74,18 @@ def job(cfg):
             return None
         # the packs offered by the verification strategies also offer strategies to the expanded specification
         offers = []
-        for v in pack.ver_strats:
+        todo, seen_packs = list(pack.ver_strats), set()
+        while todo:  # the offered packs may themselves contain verification strategies offering packs
+            v = todo.pop()
             try:
-                offers += list(v.pack(start))
+                p2 = v.pack(start)
             except Exception:
-                pass
+                continue
+            if repr(p2) in seen_packs:
+                continue
+            seen_packs.add(repr(p2))
+            offers += list(p2)
+            todo += list(p2.ver_strats)
         allids = [repr(x) for x in list(pack) + offers]
         before = digest(spec, s.namer, pack, offers)
         ids_before = rule_ids(spec)
@@ -100,6 +120,8 @@ def job(cfg):
         tr = s.spec_trace(tid, events)
         tr["pack"] = allids
         tr["nverified"] = nver
+        tr["vp"] = vp
+        tr["has_reverse"] = 'reverse' in before
         return tr
     finally:
         s.close()
@@ -107,7 +129,7 @@ def job(cfg):
 
 def run(tier: str, seed: int) -> int:
     run_ = Run("C19", tier, seed)
-    pats_list = [("aa",), ("aa", "bb"), ("aba", "bb"), ("ab",), ("aab", "bba")] + ([("aaa",), ("abb", "bab"), ("aabb",)] if tier == "thorough" else [])
+    pats_list = [("aa",), ("aa", "bb"), ("aba", "bb"), ("ab",), ("aab", "bba"), ("aab",)] + ([("aaa",), ("abb", "bab"), ("aabb",)] if tier == "thorough" else [])
     cfgs = []
     for pats in pats_list:
         for vp in VPACKS:
@@ -115,6 +137,8 @@ def run(tier: str, seed: int) -> int:
                 for st in (("s0", "s1") if tier == "thorough" else ("s0",)):
                     for sch in (("one", "all") if tier == "thorough" else ("mixed",)):
                         cfgs.append((pats, "ab", st, vp, fl, sch))
+    # start classes with a prefix: only the pattern sets for which the offered pack can reach the verified class by design
+    cfgs = [c for c in cfgs if not (VPACKS[c[3]].get("start_prefix") and (c[0], c[3]) not in PREFIXED)]
     traces = [t for t in pmap(job, cfgs, procs=16, chunk=1) if t]
     hist = {}
     for t in traces:
@@ -126,6 +150,8 @@ def run(tier: str, seed: int) -> int:
     c02.judge(run_, traces, "expand")
     run_.rule = ("start classes x verification packs (verified from prefix length 0-3, with symmetry / inferral / factories, and a "
                  "verification pack needing reverse rules) x three rule databases; only specifications with >= 1 expandable verified class")
+    run_.extra["originals_containing_a_reverse_rule"] = sum(1 for t in traces if t["has_reverse"])
+    run_.extra["expansions_bringing_in_new_verified_classes"] = sum(1 for t in traces if t["vp"].startswith("nest"))
     run_.extra["specs_by_number_of_verified_classes"] = {str(k): v for k, v in sorted(hist.items())}
     run_.assumptions = ["the inner forest searches of expand_verified are not recorded event by event (their products are judged)"]
     return run_.finish()
